@@ -99,3 +99,26 @@ chk('C08', 'exploration',
     'Three polygonal domains x every dyadic boundary element (space level <= 3 quick / 5 thorough) x 11 time intervals (incl. those starting at t=0) with aspect <= 32 x u0 in {1, sine product} against the independent oracle (1e-5); linearity (1e-12), additivity under time/space split with real children, independent domain integral for the polynomial/trigonometric family (1e-6), pointwise evaluate / evaluate_mesh for t >= 0.05 side^2 (1e-5), linform_vector bitwise; branch-signature vacuity guard (identical / touching v0 / touching v1 / disjoint cells, a==0 / a>0).',
     'Trusted: mc/oracle_m0.py (validated against 26-30 digit mpmath and against two unrelated rule sets on every deciding load). The closed forms of problems.py are cross-checked pointwise with mpmath as arbiter.',
     'exhaustive enumeration of a bounded element universe against an independent reference model', 'DESIGN.md 4/C08', 'E4-m0-oracle')
+
+# ---- call-history clauses added after the state-dependent seed waves (appended to the level texts)
+_HIST = {
+ 'C01': ' Call histories: every pair is additionally served by a second operator in the reverse order (quick) / by a brand-new operator (thorough) and must agree bitwise; all 20 ordered pairs of curves are served one after the other in fresh processes (values of the second curve against the oracle).',
+ 'C03': ' Call histories: ordered pairs of problem/domain combinations set up and solved one after the other in fresh processes (residual means of the second).',
+ 'C04': ' Call histories: second serial assembly on the same operator with a same-length trial list in another order; virtual-pool path.',
+ 'C06': ' Two marking steps on one mesh object (isotropic/anisotropic first step, every subset for N<=3(5), singletons up to N=6(8)).',
+ 'C07': ' Call histories: all 20 ordered pairs of curves served one after the other in fresh processes.',
+ 'C08': ' Call histories: all 6 orders of the three domains served in one process (shared boundary segments).',
+ 'C09': ' Call histories: successive pool calls on one estimator and one element list object with different residuals (virtual pool, one window).',
+ 'C10': ' Query-refine-query histories on one mesh object on every transition and along the random walks.',
+ 'C11': ' Call histories: all 20 ordered pairs of curves served one after the other in fresh processes.',
+ 'C13': ' Operator histories: child blocks recomputed with new virtual children and re-assembly on the same operator must be bitwise stable and equal to a fresh operator.',
+ 'C15': ' Construction histories on shared tensor schemes (all constructor orders; arguments must stay bitwise untouched); box alphabets contain translates with identical side lengths.',
+ 'C16': ' End points are looked up before the refinement that creates them in the second orientation of every targeting case.',
+ 'C17': ' Pool call histories with lists mutated in place (reverse / replace / rotate) on the same operator.',
+ 'C18': ' Construction histories on one curve object: every ordered pair of six space grids (incl. different grids of the same length) x two time grids.',
+ 'C19': ' Every ordered pair of exponents graded one after the other on one mesh object at every state of depth <= 2 (quick) / 3 (thorough).',
+ 'C20': ' Prolongate is also called on stored element lists after the mesh was refined further.',
+}
+for _k, _t in _HIST.items():
+    CHECKS[_k]['level_claimed']['text'] += _t
+NOTES += ' Thorough-tier wall times measured on this 16-core sandbox (under load): C01 13 min, C02 4 min, C03 26 min, C04 1.5 min, C06 52 min, C07 7 min, C08 4 min, C09 2 min, C10 5 min, C11 5 min, C12 8 min, C13 21 min, C15 1.5 min, C16 6 min, C17 9 min, C19 11 min, C20 3 min; C05/C14/C18 under 30 s.'
